@@ -563,7 +563,10 @@ def gen_e2e(rng, ranks=None):
     n = ranks or rng.choice([1, 2, 2, 3, 3, 4, 4, 5, 6, 8])
     ng = rng.choice([0, 1, 1, 2, 2, 3]) if n > 1 else rng.choice([0, 1])
     sc = {"kind": "e2e", "freq": f, "ranks": n, "files": {}, "truth": {}, "groups": [],
-          "opts": rng.choice([[], [], ["--keep_prep"], ["-t"], ["--keep_prep", "--keep_names"], ["--disable_tb"]])}
+          "opts": rng.choice([[], [], ["--keep_prep"], ["-t"], ["--keep_prep", "--keep_names"], ["--disable_tb"],
+                              ["--drop_globals"], ["--drop_globals", "--keep_prep"], ["--flow"]])}
+    if n == 1 and "--flow" in sc["opts"]:
+        sc["opts"] = []       # a one-rank "collective" of this generator multicasts to nobody (Peers ""): not a flow input
     wrap = rng.random() < 0.35
     epoch = [(W * rng.randrange(0, 3) + W - rng.randrange(1, 3000000)) if wrap and rng.random() < 0.6
              else rng.randrange(1000, W // 2) for _ in range(n)]
